@@ -422,7 +422,7 @@ func c03Gen(g *G) {
 }
 
 func init() {
-	register(&Prop{Name: "c03", Gen: c03Gen, Exec: c03Exec, Judge: c03Judge,
+	register(&Prop{Name: "c03", Stateless: true, Gen: c03Gen, Exec: c03Exec, Judge: c03Judge,
 		Setup: func(g *G) { c03G = g },
 		Teardown: func() {
 			kinds := map[string]interface{}{}
